@@ -338,8 +338,10 @@ func catalogue(target string) []program {
 			{{o("lock", 1), o("lock", 2), o("unlock", 2)}, {o("clear", 9)}, {o("clear", 8), o("clear", 7), o("trylock", 1), o("unlock?", 1)}},
 			// a cleared key is re-acquired lock-free while a first use of another key rebuilds the map's dirty copy; after the next promotion
 			// the holder's mutex must still be the key's mutex (t0 ends HOLDING key 1; t2's TryLockKey(1) must fail from then on)
-			{{o("lock", 1), o("unlock", 1), o("clear", 1), o("lock", 1)}, {o("lock", 2), o("unlock", 2), o("lock", 2), o("unlock", 2)}, {o("trylock", 1), o("unlock?", 1)}},
-			{{o("lock", 1), o("unlock", 1), o("lock", 1), o("unlock", 1), o("clear", 1), o("lock", 1)}, {o("lock", 2), o("unlock", 2), o("lock", 3), o("unlock", 3), o("lock", 3), o("unlock", 3)}, {o("trylock", 1), o("unlock?", 1)}},
+			// (t2 starts only after the ClearKey has returned: a ClearKey that overlaps another call on its key, or clears a held key, is outside
+			// the property - and t2's UnlockKey would then unlock a fresh, unlocked mutex, which is a fatal error of the Go runtime)
+			{{o("lock", 1), o("unlock", 1), o("clear", 1), o("signal", 0), o("lock", 1)}, {o("lock", 2), o("unlock", 2), o("lock", 2), o("unlock", 2)}, {o("await", 0), o("trylock", 1), o("unlock?", 1)}},
+			{{o("lock", 1), o("unlock", 1), o("lock", 1), o("unlock", 1), o("clear", 1), o("signal", 0), o("lock", 1)}, {o("lock", 2), o("unlock", 2), o("lock", 3), o("unlock", 3), o("lock", 3), o("unlock", 3)}, {o("await", 0), o("trylock", 1), o("unlock?", 1)}},
 		}
 	case "krw":
 		return []program{
